@@ -208,9 +208,11 @@ def _expand_chunk(chunk):
 
 def hv_canon(hv):
     if isinstance(hv, (frozenset, set)):
-        return tuple(sorted(hv, key=repr))
+        return ("set",) + tuple(sorted((hv_canon(x) for x in hv), key=repr))
     if isinstance(hv, dict):
-        return tuple(sorted(hv.items(), key=repr))
+        return ("map",) + tuple(sorted(((hv_canon(k), hv_canon(v)) for k, v in hv.items()), key=repr))
+    if isinstance(hv, tuple):
+        return tuple(hv_canon(x) for x in hv)
     return hv
 
 
